@@ -63,6 +63,7 @@ let parse_chain toks =
     | 2 -> let i = counted () in let o = counted () in ShFn (i, o)
     | 3 -> let i = counted () in let ii = counted () in let io = counted () in let o = counted () in ShWrap (i, ii, io, o)
     | 4 -> let i = counted () in let o = counted () in ShFnPtr (i, o)
+    | 5 -> let i = counted () in let o = counted () in ShNilFn (i, o)
     | _ -> failwith "bad shape" in
   let provider () =
     let pid = next () in let origin = next () in let rep = next () in let bef = next () in let aft = next () in
@@ -94,6 +95,16 @@ let parse_chain toks =
               if present <> 0 then Some (plain 91 (ShFnPtr (i, o))) else None) in
   let nS = next () in
   let sess = List.init nS (fun _ -> next () <> 0) in
+  (* optional: how invoke / init are passed to Bind: 0 pointer to func, 1 plain func, 2 nil, 3 pointer to a non-func *)
+  let kind () = if !pos < Array.length a then next () else 0 in
+  let invKind = kind () in let initKind = kind () in
+  let rekind k (d : pdesc) = match k, d.d_shape with
+    | 1, ShFnPtr (i, o) -> { d with d_shape = ShFn (i, o) }
+    | 2, _ -> { d with d_shape = ShNil }
+    | 3, _ -> { d with d_shape = ShLit (n 0) }
+    | _, _ -> d in
+  let inv = rekind invKind inv in
+  let init = (match init with Some d -> Some (rekind initKind d) | None -> None) in
   (te, { bc_te = te; bc_provs = provs; bc_invoke = inv; bc_init = init; bc_session = sess })
 
 let show_val te v =
@@ -111,7 +122,7 @@ let show_vals te l = "(" ^ String.concat "," (List.map (show_val te) l) ^ ")"
 
 let show_obs te (o : obs) =
   match o.o_bind with
-  | Err c -> "BIND err " ^ string_of_int (int_of_nat c)
+  | Err c -> "BIND err " ^ string_of_int (int_of_nat c) ^ " ; UNTOUCHED 1"
   | Panic c -> "BIND panic " ^ string_of_int (int_of_nat c)
   | Ok _ ->
     let b = Buffer.create 256 in
@@ -203,7 +214,7 @@ let projection prop secs =
   | "C07" -> if has_class secs ["1"; "2"] then status @ log @ res else status
   | "C03" | "C03strict" -> status @ order @ List.sort_uniq compare (List.filter_map (fun t ->
                if starts_with 'C' t || starts_with 'E' t then Some (before '(' t) else None) log)
-  | "C04" -> status @ List.map (fun t -> if t = "P" then "P" else "-") res
+  | "C04" -> status @ sec "UNTOUCHED" secs @ List.map (fun t -> if t = "P" then "P" else "-") res
   | "C06" -> status @ order @ List.filter (starts_with 'C') (List.map (before '(') log) @ List.filter (starts_with 'i') res
   | "C15" | "C14" | "C16" -> status @ order
   | _ -> status @ order @ rmap @ res @ log
@@ -286,6 +297,53 @@ let monitor_pair prop case obs =
        if not (ok sb) then "FAIL the chain no longer binds once its excluded providers are deleted"
        else if user_included sa <> user_included sb then "FAIL deleting the excluded providers changes which providers are included"
        else if sec "RES" sa <> sec "RES" sb || sec "LOG" sa <> sec "LOG" sb then "FAIL deleting the excluded providers changes the behaviour"
+       else "PASS"
+     | ["PAIR"; "displace"; pid] when prop = "C17" || prop = "C17strict" ->
+       let pidn = int_of_string pid in
+       let (te, c) = (match split_ws ka with "K" :: rest -> parse_chain rest | _ -> failwith "bad K") in
+       let noT = te.te_noT and teT = te.te_terminalT in
+       let down_outs (d : pdesc) = match d.d_shape with
+         | ShLit t -> [t] | ShFn (_, o) -> List.filter (fun t -> t <> teT) o | ShWrap (_, ii, _, _) -> ii
+         | ShFnPtr (i, _) -> i | _ -> [] in
+       let ins (d : pdesc) = match d.d_shape with ShFn (i, _) -> i | ShWrap (i, _, _, _) -> i | _ -> [] in
+       let all = c.bc_provs @ [c.bc_invoke] @ (match c.bc_init with Some i -> [i] | None -> []) in
+       let moved = List.find (fun d -> int_of_nat d.d_pid = pidn) c.bc_provs in
+       let producers t = List.length (List.filter (fun d -> List.mem t (down_outs d)) all) in
+       ignore noT;
+       let unique_out = List.for_all (fun t -> producers t = 1) (down_outs moved) in
+       let single_src = List.for_all (fun t -> producers t = 1) (ins moved) in
+       let cacheable = List.exists (fun d -> d.d_cacheable) c.bc_provs in
+       if not (ok sa) then "PASS" else
+       let all_inc = List.for_all (fun t -> match String.split_on_char ':' t with
+           | [p; _; _; inc] -> int_of_string p >= 90 || inc = "1" | _ -> true) (sec "ORDER" sa) in
+       if not (all_inc && unique_out && single_src) then "PASS (outside the scope of the statement)" else
+       if cacheable && prop = "C17" then "PASS (D16 region: a static-eligible provider is present)" else
+       let strip tok =    (* drop serials: t.p.s -> t.p *)
+         let b = Buffer.create 32 in
+         let parts = String.split_on_char '.' tok in
+         ignore parts;
+         (* a value is digits.digits.digits inside parentheses; rewrite with a small scanner *)
+         let n = String.length tok in
+         let i = ref 0 in
+         while !i < n do
+           let ch = tok.[!i] in
+           if (ch = '(' || ch = ',') then begin
+             Buffer.add_char b ch; incr i;
+             (* read value up to , or ) *)
+             let j = ref !i in
+             while !j < n && tok.[!j] <> ',' && tok.[!j] <> ')' do incr j done;
+             let v = String.sub tok !i (!j - !i) in
+             (match String.split_on_char '.' v with
+              | [t; p; _] -> Buffer.add_string b (t ^ "." ^ p)
+              | _ -> Buffer.add_string b v);
+             i := !j
+           end else begin Buffer.add_char b ch; incr i end
+         done;
+         Buffer.contents b in
+       let proj secs = List.sort compare (List.map strip (sec "LOG" secs)) @ List.map strip (sec "RES" secs) in
+       if not (ok sb) then "FAIL the chain no longer binds with the injector marked Reorder and listed elsewhere"
+       else if user_included sa <> user_included sb then "FAIL displacing the Reorder'd injector changes which providers are included"
+       else if proj sa <> proj sb then "FAIL after displacing the Reorder'd injector some value comes from a different producer: " ^ first_diff (proj sb) (proj sa)
        else "PASS"
      | _ -> "PASS (no pair monitor)")
   | _ -> "FAIL malformed pair"
